@@ -369,59 +369,7 @@ func runMain(args []string) int {
 	sd := seed()
 	budget := softBudget(tier)
 	deadline := time.Now().Add(budget)
-	results := make([]*Result, n)
-	errs := make([]string, n)
-	var wg sync.WaitGroup
-	for i := 0; i < n; i++ {
-		wg.Add(1)
-		go func(i int) {
-			defer wg.Done()
-			a := append(append([]string{}, argv[1:]...), "worker", id, tier, strconv.Itoa(i), strconv.Itoa(n),
-				strconv.FormatInt(sd, 10), strconv.FormatInt(deadline.Unix(), 10))
-			cmd := exec.Command(argv[0], a...)
-			cmd.Env = append(os.Environ(), "GOMAXPROCS=2")
-			if replay != "" {
-				cmd.Env = append(cmd.Env, "VERIF_REPLAY_FILE="+replay)
-			}
-			var stdout, stderr bytes.Buffer
-			cmd.Stdout = &stdout
-			cmd.Stderr = &stderr
-			if err := cmd.Start(); err != nil {
-				errs[i] = err.Error()
-				return
-			}
-			done := make(chan error, 1)
-			go func() { done <- cmd.Wait() }()
-			hard := time.Until(deadline) + budget/2 + 2*time.Minute
-			select {
-			case err := <-done:
-				if err != nil {
-					errs[i] = fmt.Sprintf("worker %d: %v\n%s", i, err, tail(stderr.String(), 4000))
-					return
-				}
-			case <-time.After(hard):
-				cmd.Process.Kill()
-				errs[i] = fmt.Sprintf("worker %d killed at hard deadline\n%s", i, tail(stderr.String(), 2000))
-				return
-			}
-			s := stdout.String()
-			k := strings.LastIndex(s, "@@RESULT@@\n")
-			if k < 0 {
-				errs[i] = fmt.Sprintf("worker %d: no result\n%s", i, tail(stderr.String(), 2000))
-				return
-			}
-			r := NewResult()
-			if err := json.Unmarshal([]byte(s[k+len("@@RESULT@@\n"):]), r); err != nil {
-				errs[i] = fmt.Sprintf("worker %d: bad result: %v", i, err)
-				return
-			}
-			results[i] = r
-			if os.Getenv("VERIF_VERBOSE") != "" && stderr.Len() > 0 {
-				fmt.Fprintf(os.Stderr, "[worker %d stderr]\n%s\n", i, tail(stderr.String(), 4000))
-			}
-		}(i)
-	}
-	wg.Wait()
+	results, errs := RunWorkers(argv, id, tier, n, sd, deadline, budget, replay, "")
 
 	merged := NewResult()
 	harness := []string{}
@@ -481,6 +429,78 @@ func runMain(args []string) int {
 		fmt.Printf("  uncovered (reported, not violations): %v\n", merged.Uncovered)
 	}
 	return exit
+}
+
+// SoftBudget is the soft time budget of a tier; Seed is the run's seed.
+func SoftBudget(tier string) time.Duration { return softBudget(tier) }
+func Seed() int64                          { return seed() }
+
+// Merge folds one worker result into m (counters add up, violations are
+// de-duplicated by key, Bounds/Rule are taken from r when it has them).
+func Merge(m, r *Result) { mergeInto(m, r) }
+
+// RunWorkers launches n worker processes `argv… worker id tier i n seed
+// deadline [arg]` and collects their results (nil where a worker failed; errs
+// says why). It is what `run` does for every check; a check whose Pre/Post
+// runs an additional exploration in another binary calls it as well.
+func RunWorkers(argv []string, id, tier string, n int, sd int64, deadline time.Time, budget time.Duration, replay, arg string) ([]*Result, []string) {
+	results := make([]*Result, n)
+	errs := make([]string, n)
+	var wg sync.WaitGroup
+	for i := 0; i < n; i++ {
+		wg.Add(1)
+		go func(i int) {
+			defer wg.Done()
+			a := append(append([]string{}, argv[1:]...), "worker", id, tier, strconv.Itoa(i), strconv.Itoa(n),
+				strconv.FormatInt(sd, 10), strconv.FormatInt(deadline.Unix(), 10))
+			if arg != "" {
+				a = append(a, arg)
+			}
+			cmd := exec.Command(argv[0], a...)
+			cmd.Env = append(os.Environ(), "GOMAXPROCS=2")
+			if replay != "" {
+				cmd.Env = append(cmd.Env, "VERIF_REPLAY_FILE="+replay)
+			}
+			var stdout, stderr bytes.Buffer
+			cmd.Stdout = &stdout
+			cmd.Stderr = &stderr
+			if err := cmd.Start(); err != nil {
+				errs[i] = err.Error()
+				return
+			}
+			done := make(chan error, 1)
+			go func() { done <- cmd.Wait() }()
+			hard := time.Until(deadline) + budget/2 + 2*time.Minute
+			select {
+			case err := <-done:
+				if err != nil {
+					errs[i] = fmt.Sprintf("worker %d: %v\n%s", i, err, tail(stderr.String(), 4000))
+					return
+				}
+			case <-time.After(hard):
+				cmd.Process.Kill()
+				errs[i] = fmt.Sprintf("worker %d killed at hard deadline\n%s", i, tail(stderr.String(), 2000))
+				return
+			}
+			s := stdout.String()
+			k := strings.LastIndex(s, "@@RESULT@@\n")
+			if k < 0 {
+				errs[i] = fmt.Sprintf("worker %d: no result\n%s", i, tail(stderr.String(), 2000))
+				return
+			}
+			r := NewResult()
+			if err := json.Unmarshal([]byte(s[k+len("@@RESULT@@\n"):]), r); err != nil {
+				errs[i] = fmt.Sprintf("worker %d: bad result: %v", i, err)
+				return
+			}
+			results[i] = r
+			if os.Getenv("VERIF_VERBOSE") != "" && stderr.Len() > 0 {
+				fmt.Fprintf(os.Stderr, "[worker %d stderr]\n%s\n", i, tail(stderr.String(), 4000))
+			}
+		}(i)
+	}
+	wg.Wait()
+	return results, errs
 }
 
 func tail(s string, n int) string {
